@@ -438,7 +438,12 @@ def check_no_panic(ctx, rep, tier):
         rep.ob('trap sites accounted for', 1, 1 if ok else 0)
         if not ok:
             rep.finding('C08 trap-site-not-covered %s' % fnp, '%s at %s' % (kind, sp))
-    rep.floor('trap sites in inventory', len(inv), 8)
+    # vacuity guard: the inventory must have scanned the crate's hand-written bodies.  (The NUMBER of trap sites is recorded, not
+    # floored: a maintainer may remove every overflow-checked operation - refactors/Y4-p3 went from 10 to 7 - and the property then holds
+    # all the more.)
+    scanned = [f for f in handwritten if f['path'] not in fmt_impls and f.get('closure_of') not in fmt_impls]
+    rep.floor('hand-written bodies scanned for trap sites', sum(1 for f in scanned for _ in iter_bodies(f)), 20)
+    rep.analysed['trap_sites'] = len(inv)
     rep.analysed['functions_covered'] = sorted(covered_fns)
     rep.nontrivial = len(inv)
     rep.rule = ('every public operation is interpreted abstractly over all inputs x the reachable-state invariant of its component (frame decoder: '
